@@ -165,9 +165,41 @@ READ_CASES = [
     ("#CRTFv0\nbox[[12deg, 21deg], [10deg, 20deg]], coord=J2000\n",
      lambda rs: type(rs[0]).__name__ == 'RectangleSkyRegion' and abs(rs[0].center.ra.deg - 11) < 1e-9 and abs(rs[0].center.dec.deg - 20.5) < 1e-9
      and abs(rs[0].width.to_value(u.deg) - 2) < 1e-9 and abs(rs[0].height.to_value(u.deg) - 1) < 1e-9),
+    # a default set by a global line stays in force until THAT key is set again
+    ("#CRTFv0\nglobal coord=GALACTIC, color=blue\nglobal linewidth=3\ncircle[[10deg, 20deg], 3arcsec]\nglobal color=red\ncircle[[11deg, 21deg], 3arcsec]\n",
+     lambda rs: len(rs) == 2 and all(type(r).__name__ == 'CircleSkyRegion' and r.center.frame.name == 'galactic' for r in rs)
+     and rs[0].visual.get('color') == 'blue' and rs[1].visual.get('color') == 'red' and str(rs[0].visual.get('linewidth')) == '3' and str(rs[1].visual.get('linewidth')) == '3'),
     ("#CRTFv0\ncircle[[10deg, 20deg], 3], coord=J2000\n", 'error'),        # lengths require units
     ("#CRTFv0\nhexagon[[10deg, 20deg], 3arcsec]\n", 'error'),
 ]
+
+
+def h_write_options(m):
+    """EXECUTED (no symbolic input): Regions.write(..., format='crtf', **options) puts into the file exactly the text that
+    serialize(format='crtf', **options) returns, for option sets away from the defaults"""
+    import os
+    import tempfile
+    import shutil
+    from regions import Regions, CircleSkyRegion, EllipseSkyRegion, CirclePixelRegion, PixCoord
+    from astropy.coordinates import SkyCoord
+    c = SkyCoord(10.0, 20.0, unit='deg', frame='fk5')
+    sky = Regions([CircleSkyRegion(c, 1.2345 * u.arcsec), EllipseSkyRegion(c, 6 * u.arcsec, 3 * u.arcsec, angle=25 * u.deg)])
+    pix = Regions([CirclePixelRegion(PixCoord(1.0, 2.0), 3.0)])
+    d = tempfile.mkdtemp(prefix='vf-c11w-')
+    try:
+        for k_, (regs, kw) in enumerate(((sky, {'radunit': 'arcsec', 'fmt': '.3f'}), (sky, {'coordsys': 'galactic', 'radunit': 'arcmin'}),
+                                         (sky, {}), (pix, {'coordsys': 'image', 'radunit': 'pix', 'fmt': '.2f'}))):
+            path = os.path.join(d, f'out{k_}.crtf')
+            regs.write(path, format='crtf', **kw)
+            with open(path) as f:
+                text = f.read()
+            m.require(f'write(format=crtf, {kw}) writes what serialize(format=crtf, {kw}) returns', text == regs.serialize(format='crtf', **kw))
+            regs[0].write(path, format='crtf', overwrite=True, **kw)
+            with open(path) as f:
+                text = f.read()
+            m.require(f'Region.write(format=crtf, {kw}) writes what Region.serialize returns', text == regs[0].serialize(format='crtf', **kw))
+    finally:
+        shutil.rmtree(d, ignore_errors=True)
 
 
 def h_reading(i, m):
@@ -215,6 +247,7 @@ def harnesses(tier):
     hs.append(('list/pixel/ann+excluded', P(h_roundtrip, ['circle'], ['ann'], [False], ['image'], 'image', '.4f', 'pix', 2)))
     for i in range(len(READ_CASES)):
         hs.append((f'reading/{i}', P(h_reading, i)))
+    hs.append(('write-options-equal-serialize (executed)', h_write_options))
     return hs
 
 
